@@ -21,7 +21,8 @@ func (p *TagsUpdate) Decode(c *proto.PacketContext, rd io.Reader) (err error) {
 		return err
 	}
 
-	p.Tags = make(map[string]map[string][]int, size)
+	// size and innerSize come from the wire: cap the pre-allocation like every other collection reader
+	p.Tags = make(map[string]map[string][]int, min(size, util.MaxPreAllocSize))
 	for i := 0; i < size; i++ {
 		key, err := util.ReadString(rd)
 		if err != nil {
@@ -33,7 +34,7 @@ func (p *TagsUpdate) Decode(c *proto.PacketContext, rd io.Reader) (err error) {
 			return err
 		}
 
-		innerMap := make(map[string][]int, innerSize)
+		innerMap := make(map[string][]int, min(innerSize, util.MaxPreAllocSize))
 		for j := 0; j < innerSize; j++ {
 			innerKey, err := util.ReadString(rd)
 			if err != nil {
